@@ -183,6 +183,20 @@ def _map_oracle(E, kind_of_entry, log):
             return E.Adt("std::collections::hash_map::Entry", 0 if kind_of_entry == "occupied" else 1, {0: E.Tok("entry")})
         if name in ("get_mut", "into_mut", "get") and "OccupiedEntry" in full:
             return E.href("state")
+        # the same map through its direct API (get_mut / contains_key / insert / remove on the one key)
+        if "HashMap" in full and "Entry" not in full:
+            occupied = kind_of_entry == "occupied" and ("remove",) not in log
+            if name in ("get_mut", "get"):
+                return E.Some(E.href("state")) if occupied else (E.Some(E.href("inserted")) if ("insert",) in log else E.NONE)
+            if name == "contains_key":
+                return E.Int(1 if occupied or ("insert",) in log else 0)
+            if name == "insert":
+                it.heap["inserted"] = it.deref_val(args[2]) if len(args) > 2 else E.TOP
+                log.append(("insert",))
+                return E.Some(E.Tok("previous")) if occupied else E.NONE
+            if name in ("remove", "remove_entry"):
+                log.append(("remove",))
+                return E.Some(it.heap.get("state", E.TOP)) if occupied else E.NONE
         if name in ("remove", "remove_entry") and "OccupiedEntry" in full:
             log.append(("remove",))
             return E.Tok("removed")
